@@ -1,3 +1,55 @@
+/-
+  C10 — Skipping accepts exactly what reading accepts and advances identically.
+
+  Subject: the model of `Constructed::skip_opt` (`skipOpt` / `skipLoop` / `popLoop`, an ITERATIVE loop
+  with an explicit stack of saved limits), `skip`, `skip_one` (`skipOne`), `skip_all` (`skipAll`) of
+  Model/Content.lean, run by `runG0` (SliceSource semantics; `runG` refines it) on ANY source without an
+  open capture (`g.frames = []`), for ANY `Constructed` state and mode, ANY filter closure (as a
+  state-passing function, `none` = `Err`) and ANY stack of open values where a lemma is about the loop.
+  Reference: the X.690 grammar `Spec.parseValue / parseAll / parseUntilEoc`, which C02 shows to be
+  what the recursive generic reader (`readValue` / `readAll`) accepts.
+
+  How it is proved
+  * `skip_step`: one iteration of the loop in closed form (`stepF`, `sbodyF`) as a function of
+    `readIdent` / `readLen` on the limited view, like `pnv_eq` of C02.
+  * `success_all` (induction on grammar fuel, for all stacks): a value / the rest of a definite value /
+    the rest of an indefinite value that the grammar accepts is walked over by the loop with one
+    iteration per header, calling the filter along `preorder`, ending in the `after` continuation
+    (`afterK`) at exactly the grammar's position with the limit restored.
+  * `converse_all` (strong induction on loop fuel, for all stacks): every successful run of the loop
+    factors through the end of a value / definite content / indefinite content the grammar accepts.
+
+  Main statements
+  * `skip_value`, `skip_value_inv`, `skip_some_iff`: `skip_opt` returns `Some(())` iff the grammar of the
+    mode accepts a value at the current position and the filter accepts its trace; then the state is
+    unchanged, the source advanced over exactly the octets of that value, and the filter has been
+    given tag, constructed flag and depth of the value and of every nested value once, in encoding
+    order (`preorder`), a rejection ending the skip with a content error before anything later is
+    looked at; fuel needed = number of headers (`hdrs`, end-of-contents included).
+  * `skipOne_iff_read`: `skip_one` returns `Some(())` with state `c'` and source `g'` iff the optional
+    generic read `take_opt_value` (tree-building closure) returns a value with the same `c'`, `g'`.
+  * `skip_absent_iff`, `skip_absent_iff_read`, `pnv_absent_iff`: `skip_opt` reports absence exactly
+    where `take_opt_value` (any closure) does — value ended, or end-of-contents of an indefinite
+    parent, which is consumed and marks it done (`absentF`) — with the same state and source, the
+    filter untouched.  `skip_ok_iff`, `skip_absent`: the mandatory `skip`.
+  * `skipAll_spec`, `skipAll_inv`, `skipAll_iff`: `skip_all` returns iff the grammar accepts the
+    remaining content of the definite / indefinite / top-level value (`specAll`), and ends exactly
+    at its end (limit 0 / behind the end-of-contents octets, state done / end of view);
+    `skipAll_iff_readAll`, `skipAll_where_readAll`: the same against `readAll` through C02.
+  * `skip_deep`: for every `k`, `k` nested indefinite values are skipped with `2k+1` iterations.
+  * `skipOne_runG_sound`: a successful `skip_one` on the contract-checking layer `runG` is one here.
+
+  Call-stack space: in Rust `skip_opt` is a loop over a `SmallVec`; the model mirrors this by being
+  a tail loop on a fuel counter with the stack as an explicit argument — `skipLoop` never calls
+  itself except in tail position with the counter decreased, and the fuel it needs is the number
+  of headers, independent of depth (`skip_value`, `skip_deep`).  Nothing about machine stack
+  usage can be stated inside the model; that part of the property is discharged by this structure.
+
+  NOT covered: sources with an open capture frame (`capture_one` / `capture_all` are C11's); sources
+  other than SliceSource (C07/C08 carry capture-free programs over); errors are characterised as
+  "not ok" — the converse shows the loop fails whenever the grammar rejects, not which error value
+  it fails with when the fuel runs out first.
+-/
 import Bcder.Props.C02
 namespace Bcder.Props.C10
 open Bcder Bcder.Spec Prog Bcder.Props.C02
@@ -2043,5 +2095,145 @@ theorem skip_absent (c : Cons) (filter : σ → Tag → Bool → Nat → Option 
     (hf : g.frames = []) (c' : Cons) (g' : G0) (h : absentF c g = some (c', g')) :
     runG0 (skip c filter st N) g = .error .content := by
   rw [run_skip, (skip_absent_iff c filter st g hf N hN c' st g').mpr ⟨h, rfl⟩]
+
+
+/-! ### on the contract-checking layer -/
+
+/-- the same on `runG` (the layer the test driver executes, which additionally checks the `Source`
+    contract): a successful `skip_one` there is a successful `skip_one` here, so everything above
+    applies to it -/
+theorem skipOne_runG_sound (c : Cons) (N : Nat) (s : G) (hf : s.frames = []) (c' : Cons) (s' : G)
+    (h : runG (skipOne c N) s = .ok ((some (), c'), s')) :
+    ∃ f t rest, parseValue (toM c.mode) f s.view = some (t, rest) ∧ hdrs t ≤ N ∧ c' = c ∧
+      s'.erase = s.erase.adv (s.view.length - rest.length) := by
+  have h0 := sim0_ok _ _ _ _ h
+  rw [run_skipOne] at h0
+  cases hs : runG0 (skipOpt c acceptAll () N) s.erase with
+  | error e => rw [hs] at h0; cases h0
+  | ok x =>
+    obtain ⟨⟨r, c1, u⟩, g1⟩ := x
+    rw [hs] at h0
+    simp only [Except.ok.injEq, Prod.mk.injEq] at h0
+    obtain ⟨⟨hr, hc⟩, hg⟩ := h0
+    subst hr; subst hc; subst hg
+    obtain ⟨f, t, rest, hp, hN, hc, hg, _, _, _⟩ := skip_value_inv c acceptAll () s.erase hf N c1 u _ hs
+    rw [erase_view] at hp hg
+    exact ⟨f, t, rest, hp, hN, hc, hg⟩
+
+/-! ### non-vacuity: concrete inputs -/
+
+/-- `SEQUENCE(13) { SEQUENCE(indefinite) { OCTET STRING aa, INTEGER 5 } eoc, BOOLEAN ff }` followed
+    by `NULL`: an indefinite value nested in a definite one -/
+def exBytes : Bytes :=
+  [0x30, 0x0d, 0x30, 0x80, 0x04, 0x01, 0xaa, 0x02, 0x01, 0x05, 0x00, 0x00, 0x01, 0x01, 0xff, 0x05, 0x00]
+
+def exTree : Tree :=
+  .cons ⟨0, true, 16⟩ false
+    [.cons ⟨0, true, 16⟩ true [.prim ⟨0, false, 4⟩ [0xaa], .prim ⟨0, false, 2⟩ [0x05]],
+     .prim ⟨0, false, 1⟩ [0xff]]
+
+example : parseValue .ber 9 exBytes = some (exTree, [0x05, 0x00]) := by rfl
+example : parseValue .der 9 exBytes = none := by rfl
+example : hdrs exTree = 6 := by rfl
+example : preorder exTree 0 =
+    [(⟨0, true, 16⟩, 0), (⟨0, true, 16⟩, 1), (⟨0, false, 4⟩, 2), (⟨0, false, 2⟩, 2), (⟨0, false, 1⟩, 1)] := by rfl
+
+/-- the hypotheses of `skip_value` are satisfiable, and the model agrees by evaluation -/
+example : runG0 (skipOpt ⟨.unbounded, .ber⟩ acceptAll () 6) (St exBytes none) =
+    .ok ((some (), ⟨.unbounded, .ber⟩, ()), St [0x05, 0x00] none) := by
+  rw [skip_value ⟨.unbounded, .ber⟩ acceptAll () (St exBytes none) rfl (by simp) (by simp) 9 exTree [0x05, 0x00]
+    (by rfl) 6 (by decide)]
+  rfl
+example : runG0 (skipOne ⟨.unbounded, .ber⟩ 6) (St exBytes none) =
+    .ok ((some (), ⟨.unbounded, .ber⟩), St [0x05, 0x00] none) := by rfl
+/-- one unit of fuel less than there are headers is not enough -/
+example : runG0 (skipOne ⟨.unbounded, .ber⟩ 5) (St exBytes none) = .error .fuel := by rfl
+/-- the filter sees number, constructed flag and depth of every value, in encoding order -/
+example : runG0 (skipOpt ⟨.unbounded, .ber⟩
+      (fun (st : List (Nat × Bool × Nat)) t c d => some (st ++ [(t.number, c, d)])) [] 6) (St exBytes none) =
+    .ok ((some (), ⟨.unbounded, .ber⟩, [(16, true, 0), (16, true, 1), (4, false, 2), (2, false, 2), (1, false, 1)]),
+      St [0x05, 0x00] none) := by rfl
+/-- a filter that rejects depth 2 stops the skip with a content error -/
+example : runG0 (skipOpt ⟨.unbounded, .ber⟩ (fun (n : Nat) _ _ d => if d < 2 then some (n + 1) else none) 0 6)
+    (St exBytes none) = .error .content := by rfl
+/-- DER rejects the nested indefinite value, for reading and for skipping alike -/
+example : runG0 (skipOne ⟨.unbounded, .der⟩ 6) (St exBytes none) = .error .content := by rfl
+/-- `skip_all` at top level, inside a definite value (limit 15, one octet beyond it) and inside an
+    indefinite value -/
+example : runG0 (skipAll ⟨.unbounded, .ber⟩ 9) (St exBytes none) = .ok (⟨.unbounded, .ber⟩, St [] none) := by rfl
+example : specAll ⟨.definite, .ber⟩ 9 (St (exBytes.take 15 ++ [0x77]) (some 15)) =
+    some (([exTree], ⟨.definite, .ber⟩), St [0x77] (some 0)) := by rfl
+example : runG0 (skipAll ⟨.definite, .ber⟩ 8) (St (exBytes.take 15 ++ [0x77]) (some 15)) =
+    .ok (⟨.definite, .ber⟩, St [0x77] (some 0)) := by rfl
+example : specAll ⟨.indefinite, .ber⟩ 9 (St (exBytes ++ [0x00, 0x00, 0x77]) none) =
+    some (([exTree, .prim ⟨0, false, 5⟩ []], ⟨.done, .ber⟩), St [0x77] none) := by rfl
+example : runG0 (skipAll ⟨.indefinite, .ber⟩ 9) (St (exBytes ++ [0x00, 0x00, 0x77]) none) =
+    .ok (⟨.done, .ber⟩, St [0x77] none) := by rfl
+/-- absence: end-of-contents of an indefinite parent, exhausted definite parent, empty top level -/
+example : absentF ⟨.indefinite, .ber⟩ (St [0x00, 0x00, 0x77] none) = some (⟨.done, .ber⟩, St [0x77] none) := by rfl
+example : absentF ⟨.definite, .ber⟩ (St [0x77] (some 0)) = some (⟨.definite, .ber⟩, St [0x77] (some 0)) := by rfl
+example : absentF ⟨.unbounded, .ber⟩ (St [] none) = some (⟨.unbounded, .ber⟩, St [] none) := by rfl
+example : absentF ⟨.unbounded, .ber⟩ (St exBytes none) = none := by rfl
+
+/-! ### any nesting depth -/
+
+/-- `k` indefinite SEQUENCEs nested in each other around a NULL -/
+def deep : Nat → Bytes
+  | 0 => [0x05, 0x00]
+  | k + 1 => 0x30 :: 0x80 :: (deep k ++ [0x00, 0x00])
+
+def deepT : Nat → Tree
+  | 0 => .prim ⟨0, false, 5⟩ []
+  | k + 1 => .cons ⟨0, true, 16⟩ true [deepT k]
+
+theorem deep_head (k : Nat) (rest : Bytes) : ∃ b tl, deep k ++ rest = b :: tl ∧ (b = 0x05 ∨ b = 0x30) := by
+  cases k with
+  | zero => exact ⟨0x05, 0x00 :: rest, rfl, Or.inl rfl⟩
+  | succ k => exact ⟨0x30, _, rfl, Or.inr rfl⟩
+
+theorem deep_parse : ∀ (k : Nat) (rest : Bytes), parseValue .ber (2 * k + 1) (deep k ++ rest) = some (deepT k, rest) := by
+  intro k
+  induction k with
+  | zero => intro rest; rfl
+  | succ k ih =>
+    intro rest
+    have h1 : 2 * (k + 1) + 1 = (2 * k + 1 + 1) + 1 := by omega
+    rw [h1, parseValue]
+    have hri : readIdent (deep (k + 1) ++ rest) = some (⟨0, true, 16⟩, 1) := rfl
+    have hrl : readLen M.ber.isBer ((deep (k + 1) ++ rest).drop 1) = some (none, 1) := rfl
+    simp only [hri, hrl]
+    have hbody : (deep (k + 1) ++ rest).drop (1 + 1) = deep k ++ ([0x00, 0x00] ++ rest) := by
+      simp [deep]
+    rw [hbody]
+    have hu : parseUntilEoc .ber (2 * k + 1 + 1) (deep k ++ ([0x00, 0x00] ++ rest)) = some ([deepT k], rest) := by
+      rw [parseUntilEoc]
+      obtain ⟨b, tl, hb, hor⟩ := deep_head k ([0x00, 0x00] ++ rest)
+      have hne : ∃ id kk, readIdent (deep k ++ ([0x00, 0x00] ++ rest)) = some (id, kk) ∧ isEocIdent id = false := by
+        rw [hb]
+        rcases hor with rfl | rfl
+        · exact ⟨⟨0, false, 5⟩, 1, rfl, rfl⟩
+        · exact ⟨⟨0, true, 16⟩, 1, rfl, rfl⟩
+      obtain ⟨id, kk, hr, he⟩ := hne
+      simp only [hr, he, Bool.false_eq_true, if_false]
+      rw [ih ([0x00, 0x00] ++ rest)]
+      have he2 : parseUntilEoc .ber (2 * k + 1) ([0x00, 0x00] ++ rest) = some ([], rest) := rfl
+      simp only [he2]
+    rw [hu]
+    rfl
+
+
+theorem deep_hdrs (k : Nat) : hdrs (deepT k) = 2 * k + 1 := by
+  induction k with
+  | zero => rfl
+  | succ k ih => simp [deepT, hdrs, hdrsL, ih]; omega
+
+/-- any nesting depth: the loop skips `k` nested indefinite values with `2k+1` iterations -/
+theorem skip_deep (k : Nat) (rest : Bytes) :
+    runG0 (skipOne ⟨.unbounded, .ber⟩ (2 * k + 1)) (St (deep k ++ rest) none) =
+      .ok ((some (), ⟨.unbounded, .ber⟩), St rest none) := by
+  have hp := deep_parse k rest
+  rw [skipOne_value ⟨.unbounded, .ber⟩ (St (deep k ++ rest) none) rfl (by simp) (by simp) (2 * k + 1) (deepT k) rest
+    hp (2 * k + 1) (by rw [deep_hdrs]; exact Nat.le_refl _)]
+  simp [G0.adv, G0.view]
 
 end Bcder.Props.C10
